@@ -4,6 +4,8 @@ from fractions import Fraction
 import numpy as np
 
 import c06
+import common
+import smooth_translate
 from common import F, Rng, digest, fl, rs
 
 PROP = "C07"
@@ -27,7 +29,7 @@ PARTIAL = [
     "float evaluation of the truncated-power B-splines vs the exact value: tolerance 64 eps (1 + p max|domain|/dx) x sum|terms| (cancellation is built into the algorithm)",
     "local-polynomial values are compared with the exact model only where the centred/scaled local problem has cond <= 1e5 (see C06); independence from the query set is checked everywhere",
 ]
-TRUSTED_EXTRA = ["capture of PSplines.fit results / LocalPolynomial.predict arguments by subclassing from outside (no source hook)"]
+TRUSTED_EXTRA = ["translator harness/smooth_translate.py (request-independence logic, symmetrisation, P-spline predict path; syntax only)", "capture of PSplines.fit results / LocalPolynomial.predict arguments by subclassing from outside (no source hook)"]
 
 EPS = 2.220446049250313e-16
 DOMAINS = {
@@ -420,6 +422,21 @@ def search_cases(rng, tier):
 
 def witness_cases():
     return []
+
+
+TRANSLATOR_NOTE = None
+
+
+def translate():
+    """Regenerate Generated/SmoothFormulas.lean (and, through C06's translator, Generated/Kernels.lean, which the shared
+    local-polynomial model imports) from the source under test; an unrecognised shape falls back on the reference."""
+    global TRANSLATOR_NOTE
+    c06.translate()
+    TRANSLATOR_NOTE = c06.TRANSLATOR_NOTE
+
+
+def extra_coverage(cases, impls, models):
+    return dict(translator=TRANSLATOR_NOTE)
 
 
 # --------------------------------------------------------------------------
